@@ -181,6 +181,9 @@ func (d *driver) runOp(base string, st *store.Store, kind string, h int, targets
 			select {
 			case <-rec.arrived:
 				need--
+			case why := <-rec.missed:
+				res.drift = fmt.Sprintf("gate(s) %s of %s(%d) cannot be reached: %s", fmtTargets(targets), kind, h, why)
+				break wait
 			case <-done:
 				res.drift = fmt.Sprintf("operation %s(%d) finished without reaching the gate(s) %s", kind, h, fmtTargets(targets))
 				break wait
@@ -763,6 +766,9 @@ func TestDriver(t *testing.T) {
 		if big {
 			d.scriptMem = map[string]bool{}
 		}
+		if len(rep.Violations) >= 36 {
+			return
+		}
 		t0 := time.Now()
 		defer func() { rep.Set("seconds/"+sqName, int(time.Since(t0).Seconds())) }()
 		for i := range sel {
@@ -784,6 +790,10 @@ func TestDriver(t *testing.T) {
 			os.RemoveAll(out.dir)
 			if i%97 == 0 {
 				rep.Sample(map[string]any{"square": sqName, "case": c})
+			}
+			if len(rep.Violations) >= 36 {
+				rep.Set("stopped_early", "36 violations recorded")
+				break
 			}
 		}
 	}
